@@ -63,14 +63,17 @@ Theorem C11_skipped_line_is_refused : forall l, ARM.xline l = ARM.Skipped -> ARM
 Proof. exact ARM.skipped_is_refused. Qed.
 Theorem C11_refused_line_is_skipped_or_corrupt : forall l, ARM.line_ok l = false -> ARM.xline l = ARM.Skipped \/ ARM.xline l = ARM.Corrupt.
 Proof. exact ARM.refused_is_skipped_or_corrupt. Qed.
-(* over the whole armor: when the check lets a document through, no line behind the headers of its (last) signature armor
-   is one the armor reader skips - so a reading that succeeds (C11_success_means_verified: the armor passed) had every
-   candidate checksum line either compared or refused by the library *)
+(* over the whole document: when the check lets it through, no line behind the first line that begins the signature of the
+   clearsigned message is one the armor reader skips - wherever that reader takes its headers, its body or a further
+   block to begin and end; and a document is refused only for such a line *)
 Theorem C11_no_line_of_a_passed_armor_is_skipped : forall armored t, ARM.armor_ok armored = true ->
-  ARM.from_last ARM.begin_marker armored = Some t ->
-  forall pre post, map ARM.trim_cr (GS.split GS.nl t) = pre ++ [] :: post -> (forall l, In l pre -> l <> []) ->
+  ARM.from_first_line ARM.message_marker armored true = Some t ->
+  forall pre l0 post, map ARM.trim_cr (GS.split GS.nl t) = pre ++ l0 :: post ->
+  (forall l, In l pre -> ARM.prefix ARM.signature_marker l = false) -> ARM.prefix ARM.signature_marker l0 = true ->
   forall l, In l post -> ARM.xline l <> ARM.Skipped.
 Proof. exact ARM.armor_ok_no_skipped_line. Qed.
+Theorem C11_refused_only_for_a_skipped_line : forall ls, ARM.sig_ok true ls = false -> exists l, In l ls /\ ARM.xline l = ARM.Skipped.
+Proof. exact ARM.armor_refused_for_a_skipped_line. Qed.
 Theorem C11_written_checksum_line_is_let_through : forall data,
   ARM.line_ok (ARM.checksum_line data) = true /\ ARM.xline (ARM.checksum_line data) = ARM.Checksum.
 Proof. exact ARM.written_checksum_line_is_let_through. Qed.
